@@ -1,5 +1,6 @@
 import DigModel.Proofs.DfsTotal
 import DigModel.Proofs.Termination
+import DigModel.Proofs.Views
 /-
   C05 — Cycle safety, graph part (internal/graph/graph.go, full strength, any graph size):
 
@@ -17,8 +18,21 @@ import DigModel.Proofs.Termination
   * `C05_invoke_total` : in every program no operation runs out of the budget `apiInvoke` hands out
     (the model's `fuel` answer is unreachable: its verdicts are those of a terminating computation).
 
-  That Provide rejects exactly the cycles of a scope's view is carried by the correspondence check
-  (cycle-heavy profile, K-graph), see DESIGN.md §7 C05.
+  Container part (provide.go / invoke.go; the graph of scope `sc` is `edgesFrom st sc` over the holder
+  `(st.scope sc).gh`, i.e. exactly what `graphHolder.EdgesFrom` answers):
+
+  * `C05_provide_accepted_views_acyclic` : without DeferAcyclicVerification, after an accepted Provide the graph
+    of the target scope and of every descendant scope — with the new constructor in place — has no closed
+    walk (the DFS answered "ok" on the graph of the *final* container, since the later steps of the call touch
+    flags and `nodes` only; with `C05_dfs_sound` this is acyclicity);
+  * `C05_provide_cycle_is_real` : a Provide rejected with a cycle error reports the constructor projection of a
+    *real* closed walk of some affected scope's graph, as that graph stood with the new constructor in place
+    (no false positive: if every affected view is acyclic there is no such walk);
+  * `C05_invoke_cycle_is_real` : likewise for the check made by Invoke on a scope that is not verified yet;
+  * `C05_invoke_runs_only_on_acyclic_view` : an Invoke that gets as far as resolving anything works on a scope whose
+    graph has no closed walk.
+  That the holder graph coincides with the declarative view graph (orders = positions, `GhInv`) is not proved;
+  it is carried by the correspondence check (cycle-heavy profile, K-graph), see DESIGN.md §7 C05.
 -/
 namespace Dig.C05
 open Dfs
@@ -50,6 +64,49 @@ theorem C05_resolver_terminates (ctx : Ctx) (L L' D k fuel n c : Nat) (st : St) 
 theorem C05_invoke_total (p : Program) : ∀ r ∈ (runProgram p).2, r.v ≠ .fuel :=
   runOps_nofuel p.ctx p.fns p.ops 0 {} [] HInv.init (fun _ h => by cases h)
 
+
+/-- the verification loop of an accepted Provide: every affected scope's graph, in the final container, passes the DFS -/
+theorem C05_verified_scopes_acyclic (cfg : Cfg) (hd : cfg.deferAcyclic = false) (l : List Nat) (w : St)
+    (hok : (verifyScopes cfg l w).1 = .ok ()) (sc : Nat) (hsc : sc ∈ l) :
+    ∃ vis, isAcyclic (edgesFrom (verifyScopes cfg l w).2 sc) ((verifyScopes cfg l w).2.scope sc).gh.length = .ok vis :=
+  checkAcyclic_acyclic _ sc (verifyScopes_ok_acyclic cfg hd l w hok sc hsc)
+
+/-- ... and therefore has no closed walk -/
+theorem C05_provide_accepted_views_acyclic (cfg : Cfg) (hd : cfg.deferAcyclic = false) (l : List Nat) (w : St)
+    (hok : (verifyScopes cfg l w).1 = .ok ()) (sc : Nat) (hsc : sc ∈ l)
+    (a : Nat) (p : List Nat) (hp : p ≠ []) (hn : ∀ x ∈ a :: p, x < ((verifyScopes cfg l w).2.scope sc).gh.length)
+    (hw : IsWalk (edgesFrom (verifyScopes cfg l w).2 sc) (a :: p)) : (a :: p).getLast (by simp) ≠ a := by
+  obtain ⟨vis, hv⟩ := C05_verified_scopes_acyclic cfg hd l w hok sc hsc
+  exact isAcyclic_sound _ _ vis hv a p hp hn hw
+
+/-- the final container of an accepted Provide has the same graphs as the one the loop ended with: the last step
+    only appends to `nodes` -/
+theorem C05_accept_step_keeps_graphs (w : St) (target n : Nat) :
+    GraphSame w (w.modScope target fun x => { x with nodes := x.nodes ++ [n] }) :=
+  graphSame_modScope w target _ (fun _ => ⟨rfl, rfl, rfl⟩)
+
+/-- a rejection by the verification loop: the scope named is one of the affected scopes and the path is a real
+    closed walk of its graph (with the new constructor in place) -/
+theorem C05_provide_cycle_is_real (cfg : Cfg) (l : List Nat) (w : St) (sc : Nat) (p : List Nat)
+    (herr : (verifyScopes cfg l w).1 = .error (sc, .cycle p)) :
+    sc ∈ l ∧ IsClosedWalk (edgesFrom (verifyScopes cfg l w).2 sc) p := by
+  obtain ⟨h1, h2, _⟩ := verifyScopes_err_check cfg l w sc (.cycle p) herr
+  exact ⟨h1, isAcyclic_cycle _ _ p (checkAcyclic_cycle _ sc p h2)⟩
+
+/-- the check made by Invoke on a scope that is not verified yet: a cycle verdict shows a real closed walk -/
+theorem C05_invoke_cycle_is_real (st : St) (s : Nat) (p : List Nat) (h : checkAcyclic st s = .cycle p) :
+    IsClosedWalk (edgesFrom st s) p := isAcyclic_cycle _ _ p (checkAcyclic_cycle st s p h)
+
+theorem C05_invoke_runs_only_on_acyclic_view (st : St) (s : Nat) (h : checkAcyclic st s = .acyclic)
+    (a : Nat) (p : List Nat) (hp : p ≠ []) (hn : ∀ x ∈ a :: p, x < (st.scope s).gh.length)
+    (hw : IsWalk (edgesFrom st s) (a :: p)) : (a :: p).getLast (by simp) ≠ a := by
+  obtain ⟨vis, hv⟩ := checkAcyclic_acyclic st s h
+  exact isAcyclic_sound _ _ vis hv a p hp hn hw
+
+/-- the acyclicity verdict of a scope does not depend on flags, caches, logs or `nodes` lists -/
+theorem C05_check_reads_graph_only {a b : St} (h : GraphSame a b) (s : Nat) : checkAcyclic a s = checkAcyclic b s :=
+  h.checkAcyclic s
+
 /-- non-vacuity (a test, not a theorem about all inputs): a 3-cycle is found, a chain is accepted -/
 example : isAcyclic (fun u => if u = 0 then [1] else if u = 1 then [2] else if u = 2 then [0] else []) 3 = .cycle [0, 1, 2, 0] := by decide
 example : isAcyclic (fun u => if u = 0 then [1] else if u = 1 then [2] else []) 3 = .ok [2, 1, 0] := by decide
@@ -60,4 +117,11 @@ example : isAcyclic (fun u => if u = 0 then [1] else if u = 1 then [2] else []) 
 #print axioms C05_dfs_complete
 #print axioms C05_resolver_terminates
 #print axioms C05_invoke_total
+#print axioms C05_verified_scopes_acyclic
+#print axioms C05_provide_accepted_views_acyclic
+#print axioms C05_accept_step_keeps_graphs
+#print axioms C05_provide_cycle_is_real
+#print axioms C05_invoke_cycle_is_real
+#print axioms C05_invoke_runs_only_on_acyclic_view
+#print axioms C05_check_reads_graph_only
 end Dig.C05
